@@ -31,10 +31,10 @@ class SignallingCondition(threading.Condition):
             self.waiting.clear()
 
 
-def run_waiter(fn, cond, deliver, join_timeout=20.0, enter_timeout=10.0):
+def run_waiter(fn, cond, deliver, join_timeout=20.0, enter_timeout=10.0, grace=2.5):
     """Start fn() in a thread, wait until it blocks in cond.wait(), call deliver(), join.
 
-    Returns (status, value): status in 'returned', 'raised', 'never-waited', 'hung'."""
+    Returns (status, value): status in 'returned', 'raised', 'never-waited', 'hung', 'not-woken'."""
     box = {}
 
     def target():
@@ -55,7 +55,16 @@ def run_waiter(fn, cond, deliver, join_timeout=20.0, enter_timeout=10.0):
     with cond:
         pass
     if deliver is not None:
+        n = cond.waits
         deliver()
+        # lost wake-up detection: the event was delivered, yet the waiter is still parked in the
+        # same wait() call after a generous grace period (its own time-out is longer than that)
+        t.join(grace)
+        if t.is_alive() and cond.waiting.is_set() and cond.waits == n:
+            with cond:
+                cond.notify_all()
+            t.join(join_timeout)
+            return "not-woken", box.get("value")
     t.join(join_timeout)
     if t.is_alive():
         return "hung", None
